@@ -13,7 +13,8 @@ FACTMAP = {
                            "body_Program_checkResize", "body_Program_Kill", "body_Program_Quit",
                            "el_case_QuitMsg", "el_case_InterruptMsg", "el_case_BatchMsg",
                            "order_standardRenderer_stop", "order_standardRenderer_kill", "body_standardRenderer_listen",
-                           "body_standardRenderer_halt", "body_standardRenderer_start"],   # the stop handshake: only with a running listener
+                           "body_standardRenderer_halt", "body_standardRenderer_start",   # the stop handshake: only with a running listener
+                           "order_Program_ReleaseTerminal", "order_Program_RestoreTerminal", "order_Program_exec"],   # Exec inside the Lifecycle LTS (signals ignored while released)
     "C05": ["order_Program_shutdown", "order_Program_restoreTerminalState", "order_Program_Run", "order_Program_initTerminal",
             "order_Program_disableMouse", "order_Program_recoverFromPanic", "calls",
             "body_Program_initInput", "body_Program_restoreInput"],   # the termios model (Tea/Render/Tty.lean)
@@ -30,7 +31,7 @@ FACTMAP = {
             "order_standardRenderer_start", "body_Program_readLoop", "body_Program_waitForReadLoop", "body_standardRenderer_halt",
             "body_Exec", "body_ExecProcess", "body_wrapExecCommand", "body_osExecCommand_SetStdin", "body_osExecCommand_SetStdout",
             "body_osExecCommand_SetStderr",
-            "body_Program_suspend", "el_case_SuspendMsg"],   # what is handed to os/exec: nothing but the command and the program's stdio
+            "body_Program_suspend", "el_case_SuspendMsg", "methods_osExecCommand"],   # what is handed to os/exec: nothing but the command and the program's stdio
     "C18": ["body_Program_handleSignals", "body_Program_handleResize", "body_Program_listenForResize", "body_Program_checkResize",
             "body_Program_initInput",   # ttyOutput (whether size reporting exists at all) is decided there
             "el_case_windowSizeMsg", "order_Program_ReleaseTerminal", "order_Program_RestoreTerminal", "order_Program_Run"],
